@@ -300,6 +300,12 @@ NEGATIVE = [
     ("assign-exported-member", ['print "m0:1"', "import m1", "m1.val_1 = 7", "print m1.val_1"]),
     ("assign-exported-list-member", ['print "m0:1"', "import m1", 'm1.log_1 = ["x"]']),
     ("assign-module-variable", ['print "m0:1"', "import m1", "m1 = 5"]),
+    # a module is a value: a copy of it has a name that is not const, the members stay the module's own
+    ("assign-exported-member-through-copy", ['print "m0:1"', "import m1", "m = m1", "m.val_1 = 7", "print m1.val_1"]),
+    ("assign-exported-member-through-copy", ['print "m0:1"', "import m1", "m = m1", "m.val_1 += 7", "print m1.val_1"]),
+    ("assign-exported-member-through-copy", ['print "m0:1"', "import m1", "m = m1", 'm.log_1 = ["x"]']),
+    ("assign-exported-member-through-copy", ['print "m0:1"', "import m1", "const h = [m1]", "m = h[0]", "m.val_1 = 7", "print m1.val_1"]),
+    ("assign-exported-member-through-copy", ['print "m0:1"', "import m1", "f = fn() {", "  m = m1", "  m.val_1 *= 2", "}", "f()", "print m1.val_1"]),
     ("declared-type-whole", ['print "m0:1"', "import m1", "x: str = m1.val_1"]),
     ("declared-type-names", ['print "m0:1"', "import val_1 from m1", "x: str = val_1"]),
 ]
